@@ -109,6 +109,9 @@ GRAMMAR_EXPR = ["tomorrow 8-10 uhr", "friday 9-5", "5.10.2020 - 8.10.2020", "May
                 "vor 8 uhr", "not before friday", "sonntag nachmittag", "märz 3", "EOM", "jahresende",
                 # am/pm markers (their letter case is looked at by the rule body, not only by the pattern)
                 "12am", "12 am", "12:30 am", "12 a.m.", "tomorrow 12am", "12pm", "12:15 pm", "8 pm", "8:30pm", "11 a.m.", "0:30 am",
+                "5.3 pm", "7.5 pm", "from 5.3 pm", "5.3pm", "13.06 am nachmittag", "10.12 pm", "8.11am", "am 7.5 pm",
+                # letters whose case mapping changes the length of the text (ß -> SS) in front of / inside the expression
+                "fußball morgen 17 uhr", "groß 8 uhr abends", "straße 5.10. 8h", "weiß friday 9-5", "dreißig tage", "einunddreißig tage",
                 "friday 12am - 3am", "heute 12 am", "1530h", "8 uhr abends", "halb acht", "viertel nach zwölf", "Mitternacht"]
 
 
@@ -220,6 +223,25 @@ def _dash_all(arg):
     return acc
 
 
+def _case_all(arg):
+    """every grammar expression x every case variant, original first (the order matters for history effects)"""
+    pid, part = arg
+    acc = core.Acc(pid)
+    ts = dt.datetime(2020, 2, 25, 12, 43)
+    for text in part:
+        for kind in ("upper", "title", "swap", "lower"):
+            ops = [("case", 0, kind)]
+            r = check_variant(text, ts, ops)
+            if r is None:
+                continue
+            v, changed, fails = r
+            acc.case(("caseall", text, kind), nontrivial=True, cls=["parse-level", "every-case-variant-of-grammar-expressions"],
+                     sample={"text": text, "variant": v})
+            for b, d in fails:
+                acc.fail(b, {"text": text, "ts": ts.isoformat(), "ops": [list(o) for o in ops]}, d)
+    return acc
+
+
 def run(ctx):
     hi = sys.maxunicode + 1
     step = hi // 64 + 1
@@ -230,6 +252,7 @@ def run(ctx):
     n = 48000 if ctx.thorough else 2400
     acc.merge(core.pmap_acc(ctx.pid, _parse_shard, [(ctx.pid, ctx.seed, n // 16, i) for i in range(16)]))
     acc.merge(core.pmap_acc(ctx.pid, _dash_all, [(ctx.pid, p) for p in core.chunks(DASHES, 8)]))
+    acc.merge(core.pmap_acc(ctx.pid, _case_all, [(ctx.pid, p) for p in core.chunks(GRAMMAR_EXPR, 16)]))
     return core.finish(ctx, acc, RULE, exhaustive=False, assumptions=[
         "'assigned' = category != Cn in this Python's unicodedata ({}); code points only a newer Unicode database knows are skipped and counted in notes".format(unicodedata.unidata_version),
         "the function-level sweep over single code points is complete (exhaustive for that sub-domain); strings and parse-level variants are sampled"],
